@@ -211,6 +211,9 @@ def oracle(script: dict, run: Any) -> List[Violation]:
     cancelled = {c for src in script["sources"] for c in src.get("cancel", [])}
     # schedules created through task.kicker().schedule_by_time / schedule_by_cron must be handed to the source (once, under the
     # requested schedule id) - otherwise there is nothing for the scheduler to send
+    for e in h.kind("op_create_failed"):
+        out.append(Violation("C16/create-failed", f"creating schedule {e[4]['id']} through the kicker (schedule_by_time / schedule_by_cron) raised {e[4]['exc']}", sid=e[4]["id"]))
+        return out
     for e in h.kind("op_create"):
         if e[4].get("in_source") != 1 or e[4].get("got_id") != e[4]["id"]:
             out.append(Violation("C16/created-schedule-not-in-source", f"schedule {e[4]['id']} created through the kicker: the source holds {e[4].get('in_source')} "
